@@ -877,7 +877,7 @@ being `d`, is the one the reference step prescribes, and the reader is left in a
 remaining input. -/
 def Out (res : Res (Option Token)) (pos : Nat) (bom : Bom) (d : Bytes) : Prop :=
   match specStep (pos == 0) bom d with
-  | some (.tok adv t b') => ∃ r', res = .ok r' (some t) ∧ Rel r' (pos + adv) b' (d.drop adv)
+  | some (.tok adv t b') => ∃ r', res = .ok r' (some t) ∧ Rel r' (pos + adv) b' (d.drop adv) ∧ adv ≤ d.length
   | some (.end_ b') => ∃ r', res = .ok r' none ∧ Rel r' (pos + d.length) b' []
   | some (.eof a _) => ∃ r', res = .err r' .eof ∧ r'.position = pos + a
   | none => True
@@ -905,8 +905,8 @@ theorem Out_skip {res : Res (Option Token)} {pos : Nat} {pre y : Bytes} {bom bom
       cases st with
       | tok adv t b' =>
         simp only [Option.map_some, shiftStep] at h ⊢
-        obtain ⟨r', h1, h2⟩ := h
-        refine ⟨r', h1, ?_⟩
+        obtain ⟨r', h1, h2, h3⟩ := h
+        refine ⟨r', h1, ?_, by simp; omega⟩
         have e1 : pos + (adv + pre.length) = pos + pre.length + adv := by omega
         have e2 : (pre ++ y).drop (adv + pre.length) = y.drop adv := by
           rw [List.drop_append]; simp
@@ -1112,7 +1112,7 @@ theorem core_token {r : Reader} {pos : Nat} {bom bom_s bomR : Bom} {d pre tl : B
     rw [hscanD, hstab]
     simp only [interp]
     obtain ⟨r', hadv, hrel', _, _, _⟩ := (hrel.setBom bomR).advance adv (by simp [hwin]; omega)
-    refine ⟨r', ?_, hrel'⟩
+    refine ⟨r', ?_, hrel', by omega⟩
     rw [run_fallback_unfold, hrel.pos, hrel.bom, hscanW, htok]
     simp only [hadv]
   | refill st carry off =>
@@ -1147,7 +1147,8 @@ theorem core_token {r : Reader} {pos : Nat} {bom bom_s bomR : Bom} {d pre tl : B
         rw [e] at hq
         simp only [interp]
         obtain ⟨r', h1, h2⟩ := hq
-        refine ⟨r', h1, ?_⟩
+        have hbn := quoteEnd_bounds e
+        refine ⟨r', h1, ?_, by rw [hdlen]; simp at hbn; omega⟩
         have e1 : pos + (pre.length + 1 + n + 1) = pos + (pre ++ [34]).length + (n + 1) := by simp; omega
         have e2 : d.drop (pre.length + 1 + n + 1) = (tl ++ r.src.rest).drop (n + 1) := by
           rw [hd, show pre.length + 1 + n + 1 = pre.length + ((n + 1) + 1) by omega, List.drop_append]
@@ -1177,7 +1178,8 @@ theorem core_token {r : Reader} {pos : Nat} {bom bom_s bomR : Bom} {d pre tl : B
         rw [hfs] at hq
         simp only [interp]
         obtain ⟨r', h1, h2⟩ := hq
-        refine ⟨r', h1, ?_⟩
+        have hbn := findIdx_some_bounds hfs
+        refine ⟨r', h1, ?_, by rw [hdlen]; simp at hbn; omega⟩
         have e1 : pos + (pre.length + 1 + k) = pos + pre.length + (1 + k) := by omega
         have e2 : d.drop (pre.length + 1 + k) = (c :: (tl ++ r.src.rest)).drop (1 + k) := by
           rw [hd, show pre.length + 1 + k = pre.length + (1 + k) by omega, List.drop_append]
@@ -1193,7 +1195,7 @@ theorem core_token {r : Reader} {pos : Nat} {bom bom_s bomR : Bom} {d pre tl : B
             simp; omega
           rw [this]; simp
         rw [e0]
-        refine ⟨r', h1, ?_⟩
+        refine ⟨r', h1, ?_, Nat.le_refl _⟩
         have e1 : pos + d.length = pos + pre.length + (tl.length + 1 + r.src.rest.length) := by rw [hdlen]; omega
         rw [e1, List.drop_length]; exact h2
 
@@ -1279,5 +1281,127 @@ theorem run_fallback_spec : ∀ (n : Nat) (r : Reader) (pos : Nat) (bom : Bom) (
         rw [hrun]
         have hl1 : r1.src.rest.length + (k + 1) = r.src.rest.length := by rw [hrest1]; simp; omega
         exact IH r1 pos .unknown d (f + 1) (by omega) hrel1 (by omega)
+
+end Jomini.TextReader
+
+namespace Jomini.TextReader
+open Jomini Jomini.TextReader.Spec
+
+/-! ### the whole token stream -/
+
+/-- `lexAll` with the fast path out of play: every call goes straight to `next_opt_fallback`. -/
+def lexFb (fuel : Nat) : Nat → Reader → List Token → Run
+  | 0, r, acc => { toks := acc.reverse, out := .fuel, final := r }
+  | n + 1, r, acc =>
+    match nextOptFallback fuel r with
+    | .ok r' (some t) => lexFb fuel n r' (t :: acc)
+    | .ok r' none => { toks := acc.reverse, out := .end_, final := r' }
+    | .err r' e => { toks := acc.reverse, out := .err e, final := r' }
+    | .panic => { toks := acc.reverse, out := .panic, final := r }
+    | .ub => { toks := acc.reverse, out := .ub, final := r }
+    | .fuel => { toks := acc.reverse, out := .fuel, final := r }
+
+theorem interp_isSome {pos0 : Bool} {d : Bytes} {bom b : Bom} {s : Scan}
+    (h : fbLoop pos0 d .top 0 bom = (b, s)) (hs : s ≠ .bomFill) : (interp d (b, s)).isSome = true := by
+  cases s with
+  | bomFill => exact absurd rfl hs
+  | tok adv t => simp [interp]
+  | refill st carry off =>
+    have hc := fbLoop_refill_carry h
+    cases st with
+    | quote => simp [interp]
+    | unquoted => simp [interp]
+    | none =>
+      simp only [interp]
+      split
+      · simp
+      · rename_i hz
+        have hz : carry ≠ 0 := by simpa using hz
+        cases hdr : d.drop (d.length - carry) with
+        | nil =>
+          have := congrArg List.length hdr
+          simp at this; omega
+        | cons c _ => simp only; split <;> simp
+
+theorem Skips.bom_ne_unknown {pos0 : Bool} {pre : Bytes} {i : Nat} {b0 b1 : Bom} (h : Skips pos0 pre i b0 b1)
+    (hne : b0 ≠ .unknown) : b1 ≠ .unknown := by
+  induction h with
+  | nil => exact hne
+  | blank _ _ ih => exact ih hne
+  | comment _ _ ih => exact ih hne
+  | bom _ _ _ => exact absurd rfl hne
+
+theorem specStep_isSome (pos0 : Bool) (bom : Bom) (d : Bytes) : (specStep pos0 bom d).isSome = true := by
+  unfold specStep
+  generalize hres : fbLoop pos0 d .top 0 bom = res
+  obtain ⟨b, s⟩ := res
+  by_cases hs : s = .bomFill
+  · subst hs
+    simp only
+    generalize hres2 : fbLoop pos0 d .top 0 .notPresent = res2
+    obtain ⟨b2, s2⟩ := res2
+    refine interp_isSome hres2 ?_
+    -- with the BOM ruled out the scan never asks for the BOM refill
+    obtain ⟨p2, t2, bs2, rfl, hs2, ht2⟩ := decompose pos0 d.length d 0 .notPresent (Nat.le_refl _)
+    rw [hs2.fbLoop] at hres2
+    simp only [Nat.zero_add] at ht2 hres2
+    have hbs2 : bs2 ≠ .unknown := hs2.bom_ne_unknown (by simp)
+    rcases fbLoop_tail ht2 with ⟨_, h1⟩ | ⟨a, _, h1⟩ | ⟨c, r, bomR, rfl, _, _, h1⟩ | ⟨r, _, _, hbc, _⟩
+    · rw [h1] at hres2; simp at hres2; rw [← hres2.2]; simp
+    · rw [h1] at hres2; simp at hres2; rw [← hres2.2]; simp
+    · have := h1 []; simp only [List.append_nil] at this; rw [this] at hres2
+      simp at hres2; rw [← hres2.2]; exact tokenAt_not_bomFill _ _ _
+    · exact absurd hbc.2.1 hbs2
+  · have := interp_isSome hres hs
+    cases s with
+    | bomFill => exact absurd rfl hs
+    | tok _ _ => exact this
+    | refill _ _ _ => exact this
+
+theorem Rel.rest_le {r : Reader} {pos : Nat} {bom : Bom} {d : Bytes} (h : Rel r pos bom d) :
+    r.src.rest.length ≤ d.length := by rw [← h.data]; simp
+
+/-- two readers over the same remaining input — any window contents, any fault-free schedules, a slice reader
+or a large enough buffer — produce the same tokens and the same terminal outcome, and at a clean end both are
+at the end of the input. -/
+theorem lexFb_agree (n : Nat) : ∀ (r1 r2 : Reader) (pos : Nat) (bom : Bom) (d : Bytes) (f1 f2 : Nat) (acc : List Token),
+    Rel r1 pos bom d → Rel r2 pos bom d → 2 * d.length + 4 ≤ f1 → 2 * d.length + 4 ≤ f2 →
+    (lexFb f1 n r1 acc).toks = (lexFb f2 n r2 acc).toks ∧ (lexFb f1 n r1 acc).out = (lexFb f2 n r2 acc).out ∧
+    ((lexFb f1 n r1 acc).out = .end_ →
+      (lexFb f1 n r1 acc).final.position = pos + d.length ∧ (lexFb f2 n r2 acc).final.position = pos + d.length) := by
+  induction n with
+  | zero => intro r1 r2 pos bom d f1 f2 acc _ _ _ _; simp [lexFb]
+  | succ n ih =>
+    intro r1 r2 pos bom d f1 f2 acc h1 h2 hf1 hf2
+    have o1 := run_fallback_spec _ r1 pos bom d f1 rfl h1 (by have := h1.rest_le; omega)
+    have o2 := run_fallback_spec _ r2 pos bom d f2 rfl h2 (by have := h2.rest_le; omega)
+    unfold Out at o1 o2
+    have hsome := specStep_isSome (pos == 0) bom d
+    cases hsp : specStep (pos == 0) bom d with
+    | none => rw [hsp] at hsome; simp at hsome
+    | some st =>
+      rw [hsp] at o1 o2
+      cases st with
+      | tok adv t b' =>
+        obtain ⟨r1', e1, hr1, hle⟩ := o1
+        obtain ⟨r2', e2, hr2, _⟩ := o2
+        simp only [lexFb, nextOptFallback, e1, e2]
+        have hl : (d.drop adv).length ≤ d.length := by simp
+        have := ih r1' r2' (pos + adv) b' (d.drop adv) f1 f2 (t :: acc) hr1 hr2 (by omega) (by omega)
+        refine ⟨this.1, this.2.1, ?_⟩
+        intro he
+        have h3 := this.2.2 he
+        have e : pos + adv + (d.drop adv).length = pos + d.length := by simp; omega
+        rw [← e]; exact h3
+      | end_ b' =>
+        obtain ⟨r1', e1, hr1⟩ := o1
+        obtain ⟨r2', e2, hr2⟩ := o2
+        simp only [lexFb, nextOptFallback, e1, e2]
+        exact ⟨by simp, by simp, fun _ => ⟨hr1.pos, hr2.pos⟩⟩
+      | eof a b' =>
+        obtain ⟨r1', e1, _⟩ := o1
+        obtain ⟨r2', e2, _⟩ := o2
+        simp only [lexFb, nextOptFallback, e1, e2]
+        exact ⟨by simp, by simp, fun h => by simp at h⟩
 
 end Jomini.TextReader
